@@ -464,6 +464,7 @@ func runRace(ctx *runner.Ctx, k cs) {
 		count = "600"
 	}
 	args := []string{"test", "-race", "-vet=off", "-count=" + count}
+	args = append(args, runner.RaceDeadlineArg(ctx))
 	if runner.RepoDir != "/repo" {
 		// scratch run against another checkout: the module file ./check generated for it
 		args = append(args, "-modfile="+os.Getenv("VERIF_WORK")+"/go.mod")
@@ -482,6 +483,7 @@ func runRace(ctx *runner.Ctx, k cs) {
 			end = len(s)
 		}
 		ctx.Violate("data-race", "race detector report in the free-running pass:\n"+s[i:end], k)
+	case err != nil && runner.RaceDeadlineHit(ctx, "shared-circuit bodies", s):
 	case err != nil && strings.Contains(s, "--- FAIL"):
 		ctx.Violate("wrong-result.free-running", "free-running pass failed:\n"+tail(s, 1500), k)
 	case err != nil:
